@@ -36,6 +36,7 @@ func init() {
 			{ID: "C09.R13", Floor: 1, Run: internalQueriesExhausted, Text: "queries opened inside the library are run to the end: a local Query is exhausted (Next() == false) or closed on every path to a return"},
 			{ID: "C09.R14", Floor: 5, Run: lookupBeforeLock, Text: "the registered-filter lookup comes before the lock: no call that reaches the stale-handle panic of the filter cache is made while a function holds a lock bit it has just taken (a recovered panic would leave the world locked with no query open)"},
 			{ID: "C09.R15", Floor: 12, Run: c11r2, Text: "the removal event is delivered inside a lock window (= C11.R2), whatever the listener subscribes to"},
+			{ID: "C09.R16", Floor: 1, Run: noNarrowParamSums, Text: "sums with caller-supplied values are at least 64 bits wide in Query methods (= C03.R18): a step beyond the end exhausts the query and releases its lock"},
 		},
 	})
 }
